@@ -7,7 +7,7 @@ def observe(spec, inputs):
     n = C.ns()
     out = {"error": None}
     try:
-        M = numpy.array([[inputs["b"][i]] + inputs["A"][i] for i in range(spec["rows"])], dtype=numpy.int64)
+        M = numpy.array([[inputs["b"][i]] + inputs["A"][i] for i in range(spec["rows"])], dtype=numpy.int64).reshape(spec["rows"], spec["cols"] + 1)
         P = n.pnd.ge_polyhedron(M)
         pts = inputs["pts"]
         nd = spec["ndim"]
